@@ -129,7 +129,7 @@ func getBase(sp baseSpec) (*base, error) {
 		}
 	}
 	memoMu.Lock()
-	if len(memoBase) > 512 {
+	if len(memoBase) > 1024 {
 		memoBase = map[string]*base{}
 	}
 	memoBase[key] = b
